@@ -26,10 +26,13 @@ RULE = ("one evaluation = one seeded run of one workload: A) 250 SimpleBatcher c
         "simulator-answered permutation (identity/reverse/rotation/riffle/last-block-first/PRNG) "
         "and checked for exact partition/len/disjoint-cover/split stability, plus generate_batches "
         "tilings; B) a tiny ptychography problem run through the REAL reconstruct() loop for every "
-        "divisor batch size with per-batch loss and gradients tapped at fixed parameters; C) two "
+        "divisor batch size with per-batch loss and gradients tapped at fixed parameters (also after "
+        "a warm-up of real iterations and with soft constraints on object/probe/dataset); A also "
+        "covers n around 2^15/2^16/2^17, 5-9 epochs and tilings of 1e5 items; C) two "
         "instances / one instance before and after reset run with non-dividing batch sizes and a "
         "validation split, loss histories and recorded batch sequences compared, plus the negative "
-        "control that another seed gives another schedule. distinct_nontrivial = distinct "
+        "control that another seed gives another schedule; call histories R/C/N, seeds incl. 0, "
+        ">= 2^32 and 2^63-1, int or Generator. distinct_nontrivial = distinct "
         "(workload, configuration) digests with >= 2 batches per epoch.")
 SCHED_MEASURE = "distinct (permutation kind, n, batch size, split) schedule signatures"
 SIM_TIME_NOTE = "no clock in this engine; sim_time_s is 0"
